@@ -457,6 +457,17 @@ def inv_c09(prog, trace):
                 exp = not exp
             if bool(res) != bool(exp):
                 fails.append(("c09-done-condition", "tick %d: %s on line %d evaluated %r but the completion state says %r" % (t, nd, line, res, exp)))
+    # an auxiliary framer runs once per run of its main framer (which runs at most once per tick): none of its frames
+    # does its recur actions twice in one tick, whoever lists it
+    seen = {}
+    for t, e in E:
+        if e[0] == "f" and e[3] == "recur" and roles.get(e[1]) == "aux":
+            k = (t, e[1], e[2])
+            seen[k] = seen.get(k, 0) + 1
+    for (t, F, X), c in sorted(seen.items()):
+        if c > 1:
+            fails.append(("c09-aux-ran-twice-in-a-tick", "tick %d: frame %s of auxiliary %s did its recur actions %d times" % (t, X, F, c)))
+            break
     return fails
 
 
